@@ -392,3 +392,29 @@ MUTANTS += [
          old="            letters = self._alphabet_encoding.encode(data).raw()\n            return EncodedArray(\n                letters.dot(self._alphabet_encoding.alphabet_size ** np.arange(self._k)),\n                self)\n        if isinstance(data, (list",
          new="            letters = self._alphabet_encoding.encode(data).raw()\n            return EncodedArray(\n                letters[::-1].dot(self._alphabet_encoding.alphabet_size ** np.arange(self._k)),\n                self)\n        if isinstance(data, (list"),
 ]
+
+DNA = "bionumpy/sequence/dna.py"
+TR = "bionumpy/sequence/translate.py"
+
+MUTANTS += [
+    # ---- C14 ----------------------------------------------------------------------------
+    dict(prop="C14", name="complement-pair-swapped", file=DNA,
+         old='_complements = {"A": "T", "G": "C", "C": "G", "T": "A", "N": "N"}', new='_complements = {"A": "T", "G": "C", "C": "G", "T": "A", "N": "A"}'),
+    dict(prop="C14", name="reversal-dropped-for-flat", file=DNA,
+         old="    return complement(sequence)[..., ::-1]", new="    return complement(sequence)[..., ::-1] if isinstance(sequence, EncodedRaggedArray) else complement(sequence)"),
+    dict(prop="C14", name="ascii-lower-case-missing", file=DNA,
+         old="        values[ord(key.lower())] = ord(value.lower())\n", new=""),
+    dict(prop="C14", name="strand-condition-inverted", file=DNA,
+         old='    is_reverse = np.asarray(stranded_intervals.strand.ravel() == "-")', new='    is_reverse = np.asarray(stranded_intervals.strand.ravel() == "+")'),
+    dict(prop="C14", name="strand-order-not-restored", file=DNA,
+         old="                           get_reverse_complement(relevant_sequences[is_reverse])])[order]", new="                           get_reverse_complement(relevant_sequences[is_reverse])])"),
+    dict(prop="C14", name="codon-table-order", file=TR,
+         old="    amino_acids = 'FFLLSSSSYY**CC*WLLLLPPPPHHQQRRRRIIIMTTTTNNKKSSRRVVVVAAAADDEEGGGG'", new="    amino_acids = 'FFLLSSSSYY**CC*WLLLLPPPPHHQQRRRRIIIMTTTTNNKKSSRRVVVVAAAADDEEGGGG'[:48] + 'AAAAVVVVDDEEGGGG'"),
+    dict(prop="C14", name="codon-not-reversed", file=TR,
+         old="        sequence = sequence[..., ::-1]\n        sequence.encoding = e", new="        sequence.encoding = e"),
+    dict(prop="C14", name="stop-codon-amber-only", file=TR,
+         old="    amino_acids = 'FFLLSSSSYY**CC*W", new="    amino_acids = 'FFLLSSSSYY*QCC*W"),
+    dict(prop="C14", name="genomic-sequence-unstable-order (seeded C14-a)", file=GS,
+         old="                order = np.argsort(np.concatenate([np.flatnonzero(is_forward), np.flatnonzero(~is_forward)]), kind='stable')",
+         new="                order = np.argsort(np.argsort(~is_forward), kind='stable')"),
+]
